@@ -186,3 +186,10 @@ Qed.
 Lemma bind_ext_ok {A B} (m : M A) (f g : A -> M B) ds :
   (forall a d, m ds = Ok a d -> f a d = g a d) -> bind m f ds = bind m g ds.
 Proof. intro H. unfold bind. destruct (m ds); auto. Qed.
+
+(* the same with the tuple patterns the translator writes for `for x, v in zip(..)` *)
+Lemma filter_zip_map {A B} (f : A -> B) (p : B -> bool) l :
+  map (fun '(x, _) => x) (filter (fun '(_, v) => p v) (combine l (map f l))) = filter (fun x => p (f x)) l.
+Proof.
+  induction l as [|x r IH]; [reflexivity|]. cbn [map combine filter]. destruct (p (f x)); cbn [map]; rewrite IH; reflexivity.
+Qed.
